@@ -4,6 +4,7 @@ package main
 
 import (
 	"encoding/json"
+	"fmt"
 	"math"
 	"os"
 	"path/filepath"
@@ -498,6 +499,12 @@ func monitorContext(mon *Mon, root string, entries []string, v ctxView, again ct
 	}
 }
 
+func ctxAnalyzeRecovered(root string) (c *wtfctx.Context, pan interface{}) {
+	defer func() { pan = recover() }()
+	c, _ = wtfctx.NewAnalyzer().AnalyzeDirectory(root)
+	return c, nil
+}
+
 func execContext(ops []string, mon *Mon) []string {
 	out := make([]string, 0, len(ops))
 	pkgContent := ""
@@ -550,7 +557,19 @@ func execContext(ops []string, mon *Mon) []string {
 					order = append(order, e.Name())
 				}
 			}
-			c1, _ := wtfctx.NewAnalyzer().AnalyzeDirectory(root)
+			// C13 calls detection a function of the listing: an analysis that panics yields no context at all. The panic is
+			// caught here so that it is reported with the listing and the file contents that provoke it (wave 7, C13-A: a
+			// Makefile line beginning with ':'), instead of only as a line the model disagrees with.
+			c1, pan := ctxAnalyzeRecovered(root)
+			if pan != nil {
+				mon.Hit("C13", "context-analyzer-panic", map[string]interface{}{"entries": order, "panic": fmt.Sprint(pan),
+					"Makefile_hex": Hx(d.files["Makefile"]), "makefile_hex": Hx(d.files["makefile"]), "package_json_hex": Hx(d.files["package.json"]),
+					"what": "AnalyzeDirectory panicked on this directory: no project types, scripts, targets or boosts are detected at all"})
+				os.RemoveAll(root)
+				out = append(out, "panic:"+strings.ReplaceAll(fmt.Sprint(pan), "\n", " "))
+				pkgContent = ""
+				continue
+			}
 			c2, _ := wtfctx.NewAnalyzer().AnalyzeDirectory(root)
 			v1, v2 := viewOf(c1), viewOf(c2)
 			monitorContext(mon, root, order, v1, v2)
